@@ -14,15 +14,16 @@ from ..core import HarnessError, Violation
 
 ID = "C16"
 LEVEL = "exploration"
-RULE = ("Hypothesis draws a SchemaSpec tree (depth<=3) and wraps a drawn subset of its nodes (root, "
-        "list element, typed-list type, dict value, any alternative, alias target, nested) in a "
-        "forwarding CustomSchema whose four hooks delegate to the wrapped built-in; values are "
-        "conforming, near-miss, perturbed and zoo-injected. Oracle: identical repr; identical error "
-        "multisets (kind, path, parameters); under one RNG script identical generated value that "
-        "validates; substitution succeeds with identical repr or fails with the identical "
-        "SubstitutionError message; a marker keyword given to validate/fake/represent/substitute "
-        "reaches every hook call, represent visits every wrapped node exactly once. distinct = "
-        "canonical JSON of the case; non-trivial = a wrapped node at depth>=1")
+RULE = ("Hypothesis draws a SchemaSpec tree (depth<=3) and wraps a drawn subset of its nodes (root, list element, "
+        "typed-list type, dict value, any alternative, alias target, nested) in a forwarding CustomSchema whose four hooks "
+        "delegate to the wrapped built-in - the plain forwarding class, a class derived from it with its own hooks (the "
+        "base class is always exercised first), or, in a quarter of the cases, a class whose hooks have exact keyword-only "
+        "signatures without **kwargs; values are conforming, near-miss, perturbed and zoo-injected. Oracle: identical "
+        "repr; identical error multisets (kind, path, parameters), also through a Validator with its own path-holder "
+        "class; under one RNG script identical generated value that validates; substitution succeeds with identical repr "
+        "or fails with the identical SubstitutionError message; a marker keyword given to validate / fake / represent / "
+        "substitute reaches every hook call, represent visits every wrapped node exactly once. distinct = canonical JSON "
+        "of the case; non-trivial = a wrapped node at depth>=1")
 ASSUMPTIONS = ["the forwarding custom type is the one in pbt/specs.py (hooks delegate with all keyword arguments)"]
 BUDGET = {"quick": (1000, 4), "thorough": (15000, 16)}
 
